@@ -6,6 +6,8 @@ use crate::engine::{Engine, EngineInfo, Recorder, Tier};
 use crate::rng::Rng;
 use crate::util::{self, catch, Hash128, Scratch};
 use geodesy::prelude::*;
+#[allow(unused_imports)]
+use geodesy::prelude::angular;
 use serde::{Deserialize, Serialize};
 use std::io::Read;
 use std::path::PathBuf;
@@ -102,6 +104,10 @@ const INVALID_OPS: &[&str] = &[
 
 fn gen_number(rng: &mut Rng, column: usize, geographic: bool) -> String {
     // column 0/1 plane or geographic, 2 height, 3 time
+    // signs and zero degrees in sexagesimal notation, now and then
+    if column < 2 && rng.chance(0.06) {
+        return (*rng.pick(&["-0:30:36", "-0:15", "0:30:36S", "-12:30:00", "-0", "0:0:1w", "-0:0:0.5", "+1:30", "-1:30:36N", "1:2:3:4", "12:", ":30", "1e2", "-.5"])).to_string();
+    }
     match column {
         0 | 1 => {
             if geographic {
@@ -165,6 +171,44 @@ fn gen_line(rng: &mut Rng, geographic: bool, max_cols: usize) -> String {
             line
         }
     }
+}
+
+/// A coordinate element as documented: a real number, or a sexagesimal D:M or D:M:S,
+/// optionally followed by a hemisphere letter (S and W negative); a leading minus
+/// sign makes the whole value negative (also for zero degrees); anything else is NaN.
+/// Own code on purpose: the model must not inherit a parsing slip of the library.
+fn parse_number(token: &str) -> f64 {
+    let mut t = token.trim();
+    if t.is_empty() || t == "NaN" {
+        return f64::NAN;
+    }
+    let mut hemisphere = 1.0;
+    if let Some(last) = t.chars().last() {
+        if "nNeE".contains(last) {
+            t = &t[..t.len() - 1];
+        } else if "sSwW".contains(last) {
+            hemisphere = -1.0;
+            t = &t[..t.len() - 1];
+        }
+    }
+    let parts: Vec<&str> = t.split(':').collect();
+    if parts.len() > 3 {
+        return f64::NAN;
+    }
+    let mut dms = [0.0f64; 3];
+    for (i, p) in parts.iter().enumerate() {
+        match p.parse::<f64>() {
+            Ok(v) => dms[i] = v,
+            Err(_) => return f64::NAN,
+        }
+    }
+    if dms[0].is_nan() {
+        return f64::NAN;
+    }
+    let negative = parts[0].starts_with('-');
+    let magnitude = dms[0].abs() + (dms[1] + dms[2] / 60.0) / 60.0;
+    let sign = if negative { -hemisphere } else { hemisphere };
+    sign * magnitude
 }
 
 /// Coordinate line as kp documents it: whitespace separated tokens, a token starting
@@ -647,7 +691,7 @@ impl Engine for KpSim {
                 // computed (they matter for success bookkeeping) but not asserted
                 let mut b = [0.0, 0.0, 0.0, f64::NAN];
                 for (i, t) in toks.iter().take(4).enumerate() {
-                    b[i] = angular::parse_sexagesimal(t);
+                    b[i] = parse_number(t);
                 }
                 if let Some(h) = height {
                     b[2] = h;
